@@ -14,7 +14,7 @@ struct HNode {
 	int id;
 	frg::pairing_heap_hook<HNode> hook;
 };
-struct HCompare { bool operator()(HNode *a, HNode *b) const { return a->prio < b->prio; } }; // max-heap on prio
+struct HCompare { int operator()(HNode *a, HNode *b) const { return a->prio < b->prio ? 4 : 0; } }; // max-heap on prio; the answer is an integer that is truthy but not 1 (a comparator is used by its truth value, like `flags & mask`)
 using Heap = frg::pairing_heap<HNode, frg::locate_member<HNode, frg::pairing_heap_hook<HNode>, &HNode::hook>, HCompare>;
 
 static bool g_bad = false;
